@@ -18,7 +18,7 @@ from mc.props.c05 import cshape
 from valida.data import Data
 
 META = {
-    "rule": "schemas of 1 rule (14 path shapes x 4 conditions x 2 casts), all ordered pairs of rules over "
+    "rule": "schemas of 1 rule (15 path shapes x 5 conditions incl. the null condition x 2 casts), all ordered pairs of rules over "
             "(14 paths x {bool cast, int cast, no cast}) and a parent/child/grandchild triple x every document "
             "of the cast family; plus 28 'dependent' schemas (a part value condition or a data-path argument that looks at a node which its own or another rule's cast replaces; both rule orders; API- and spec-built) x their own documents; a case is one (schema, document) pair; non-trivial = the reference model "
             "replaces at least one node; distinct by construction",
@@ -38,7 +38,7 @@ PATHS = [
 ]
 PATHS8 = [PATHS[i] for i in (1, 3, 4, 8, 9, 12, 13, 14)]
 CONDS = [L("ValueDataType", "equal_to", bool), L("ValueDataType", "equal_to", int), L("Value", "equal_to", 3),
-         L("Value", "truthy")]
+         L("Value", "truthy"), T.NULL]     # (a cast-only rule: the null condition)
 CASTS = [(("str", "bool"),), (("str", "int"),)]
 LEAFS = ["true", "FALSE", "True", "3", "-3", " 3 ", "3.0", "abc", "", 3, True, None, [], {}, "inf", "1e999", "1e3", "nan", "0x10", "1_0"]
 
@@ -127,7 +127,7 @@ def dependent():
 
 
 def units(tier):
-    return gen.chunks(len(_schemas(tier)), 12) + [["HOW", how] for how in ("spec", "composed")] + [["DEP"]]
+    return gen.chunks(len(_schemas(tier)), 12) + [["HOW", how] for how in ("spec", "composed")] + [["DEP"], ["REROOT"]]
 
 
 def two_rule_schemas():
@@ -146,6 +146,19 @@ def run_unit(unit, tier):
         for si, st in enumerate(two_rule_schemas()):
             for di, doc in enumerate(docs):
                 check_case(res, st, doc, key=(unit[1], si, di), how=unit[1])
+        return res
+    if unit[0] == "REROOT":
+        # every one-rule schema whose path has >= 2 parts, built by adding the rule under each proper prefix of its path
+        # (roots with fan-out and concrete roots alike) -- on all documents
+        docs = documents()
+        extra = [(M, ("prim", "a")), (Ls, ("prim", "a")), (("prim", "a"), Ls, ("prim", "b")), (M, Ls), (MOL, ("prim", 0))]
+        sts = [st for st in _schemas("quick") if len(st[1]) == 1 and len(st[1][0][1][1]) >= 2]
+        sts += [("schema", (T.rule(T.path(p), c, cast),)) for p in extra for c in CONDS[:2] for cast in CASTS]
+        docs2 = docs + [[{"a": "3"}, {"a": "true", "b": "4"}, {"a": "x"}], {"j": {"a": "3"}, "k": {"a": "FALSE"}, "a": ["3", {"b": "5"}, {"b": "true"}]}]
+        for si, st in enumerate(sts):
+            for k in range(1, len(st[1][0][1][1])):
+                for di, doc in enumerate(docs2):
+                    check_case(res, st, doc, key=("REROOT", si, k, di), how="rerooted:%d" % k)
         return res
     if unit[0] == "DEP":
         for si, (st, docs) in enumerate(dependent()):
@@ -199,6 +212,13 @@ def build_how(st, how):
     from valida.datapath import DataPath
     if how == "spec":
         return Schema.from_json_like([S.rule_spec(r) for r in st[1]])
+    if how.startswith("rerooted"):
+        # a one-rule schema whose rule was added with add_schema under the first k parts of its path
+        k = int(how.split(":")[1])
+        r = st[1][0]
+        s = Schema([])
+        s.add_schema(T.build_schema(("schema", (T.rule(T.path(r[1][1][k:]), r[2], r[3]),))), DataPath(*[T.build_part(x) for x in r[1][1][:k]]))
+        return s
     # composed: the first rule alone, used once, then the others added at the empty root
     s = T.build_schema(("schema", st[1][:1]))
     s.validate({"a": "3", "zz": ["true"]})
